@@ -23,12 +23,13 @@ def jobs(tier):
             if which.startswith("x"):
                 continue
             out.extend(_leaf_jobs(t, tier, which, lo, hi, q))
-    for t in ALL:
+    stemps = ["t_macro_sub", "t_blocks", "t_alias_macro", "t_macro_nested", "t_loop_sub"] if q else ALL
+    for t in stemps:
         for mut in MUTATIONS:
-            for k in range(2 if q else 4):
-                out.extend(tjobs(f"{H}:c20_struct", t, "quick", fixed={"m_kind": mut, "m_site": k}, functions=FUNCS, timeout=200,
-                                 shrink={n: (lo, min(hi, lo + 2)) for n, lo, hi in ranges(t, "quick")},
-                                 note=f"{t}: structural mutant {mut} at site {k} must compare unequal when meaning or macros differ"))
+            out.extend(tjobs(f"{H}:c20_struct", t, "quick", fixed={"m_kind": mut}, functions=FUNCS, timeout=300 if q else 1200,
+                             extra_params=[("m_site", "int")], extra_pre=["0 <= m_site <= 1" if q else "0 <= m_site <= 3"],
+                             shrink={n: (lo, min(hi, lo + 1)) for n, lo, hi in ranges(t, "quick")},
+                             note=f"{t}: structural mutant {mut} at a solver-chosen site must compare unequal when meaning or macros differ"))
     for extra in (False, True):
         out.append(CH(name=f"c20_gate_float_{'longer' if extra else 'same'}", func=f"{H}:c20_gate_float", params=[("a", "float"), ("b", "float")], pre=[],
                       fixed={"extra": extra}, timeout=120, note="GateStatement equality on unconstrained symbolic floats (incl. NaN, inf)", functions=FUNCS))
